@@ -15,6 +15,8 @@ for i in range(1, 21):
         sys.exit(f"{p} does not pass on this tree; refusing to record a baseline")
 from prsa.model import load_program  # noqa: E402
 out = {k: [list(v) for v in vs] for k, vs in sorted(rules._RECORDED.items())}
-out["__functions__"] = sorted(load_program().functions)
+_P = load_program()
+out["__functions__"] = sorted(_P.functions)
+out["__module_vars__"] = sorted(_P.module_vars)
 json.dump(out, open(os.path.join(VERIF, "prsa", "baseline_vocab.json"), "w"), indent=0)
 print(len(rules._RECORDED), "comparisons recorded")
